@@ -164,7 +164,11 @@ the critical section) is not a race and is the business of C02's table obligatio
 goroutine that held the read lock, and that one shape — `traverseProducer` — was admitted under the reading that the
 callback does not use the tree.  Three independent reviewers showed the deadlock that reading hid; Traverse now collects
 under the read lock and calls back after releasing it, so it is an ordinary `r` section and the exception is gone.) -/
-def allowedFlags : List String := ["atomicOutsideLock"]   -- an access through sync/atomic never races (Go memory model); C02 counts it as a step
+def allowedFlags : List String := ["atomicOutsideLock", "twoAtomicWritesInLock", "goroutine"]
+  -- `twoAtomicWritesInLock`: likewise no race (C02's `atomicsOk` judges it); `goroutine`: marks the rows of the library's
+  -- own goroutines (`go c.cleanup()`), which must be well-locked like every other row (C02's `goroutinesOk` adds: one
+  -- critical section per iteration)
+  --   -- an access through sync/atomic never races (Go memory model); C02 counts it as a step
 
 def pathOk (p : PathEntry) : Bool :=
   p.flags.all (allowedFlags.contains ·) && p.sects.all (fun s => decide s.WellLocked)
